@@ -50,27 +50,58 @@ mod verif_c19 {
     /// stand-in for std::fs::read carrying the precondition
     pub fn read_with_precondition<P: AsRef<Path>>(path: P) -> std::io::Result<Vec<u8>> {
         assert!(confined(path.as_ref()), "LocalLoader reads outside its configured directory");
+        kani::cover!(true, "std::fs::read reached");
+        // the contract is about the call site only: what the loader does with the result is irrelevant here
+        // (and its error formatting costs CBMC tens of minutes), so the path is cut after the precondition check
+        kani::assume(false);
         Err(std::io::Error::from(std::io::ErrorKind::PermissionDenied))
     }
 
+    fn run(iri: &'static str) {
+        let loader = LocalLoader { caches: vec![(Iri::new_unchecked("x:/".into()), PathBuf::from(ROOT))] };
+        let _ = loader.get(Iri::new_unchecked(iri));
+    }
+
+    macro_rules! rep {
+        ($name:ident, $iri:expr) => {
+            //@STUBS
+            #[kani::proof]
+            #[kani::stub(std::fs::read, read_with_precondition)]
+            #[kani::unwind(24)]
+            fn $name() {
+                run($iri);
+            }
+        };
+    }
+    rep!(c19_rep_plain, "x:/a/b");
+    rep!(c19_rep_leading_slash, "x://etc/p");
+    rep!(c19_rep_dotdot, "x:/../p");
+    rep!(c19_rep_inner_dotdot, "x:/a/../../p");
+    rep!(c19_rep_dot_and_empty, "x:/./a//b");
+    rep!(c19_rep_fragment, "x:/a#../../p");
+    rep!(c19_rep_outside_namespace, "y:/a");
+    rep!(c19_rep_curdir_then_parent, "x:/./../p");
+    rep!(c19_rep_curdir_empty_parent, "x:/.//../p");
+    rep!(c19_rep_balanced_then_parent, "x:/a/./../../p");
+
+    /// symbolic suffix (bounded): 4 bytes over {a, ., /} after the namespace
     //@STUBS
     #[kani::proof]
     #[kani::stub(std::fs::read, read_with_precondition)]
     #[kani::unwind(16)]
-    fn c19_get_confined_suffix3() {
+    fn c19_get_confined_sym4() {
         let loader = LocalLoader { caches: vec![(Iri::new_unchecked("x:/".into()), PathBuf::from(ROOT))] };
-        let mut buf = *b"x:/...";
+        let mut buf = *b"x:/....";
         let n: usize = kani::any();
-        kani::assume(n <= 3);
+        kani::assume(n <= 4);
         let mut i = 0;
-        while i < 3 {
+        while i < 4 {
             let c: u8 = kani::any();
             kani::assume(c == b'a' || c == b'.' || c == b'/');
             buf[3 + i] = c;
             i += 1;
         }
         let s = std::str::from_utf8(&buf[..3 + n]).unwrap();
-        let r = loader.get(Iri::new_unchecked(s));
-        assert!(r.is_err());
+        let _ = loader.get(Iri::new_unchecked(s));
     }
 }
